@@ -236,6 +236,41 @@ def guards(F, R):
     R.ob('C20.guards', 'MqttServerImpl|version detection under Deadline(protocol_version_timeout)', ok and bool(sel), 'version detection is not raced against the protocol-version deadline')
 
 
+def server_keepalive_announced(F, R):
+    """MQTT 5 server: the idle timer is armed with `ack.keepalive`; when that is shorter than the keep-alive the client asked
+    for, the client must be told (Server Keep Alive in CONNACK), or it pings by its own, longer period and is cut off. The
+    announcement is stored on the edge `client keep-alive > ack.keepalive`, the two values compared as they are (no
+    allowance on either side: the timer has none)."""
+    b = F.one(r'^<v5::server::HandshakeService<St, H> as ntex_service::Service<ntex_io::IoBoxed>>::call::\{closure#0\}$')
+    stores = [(bi, s) for bi, j, s in b.assigns() if place_fields(s['lhs'])[-1:] == ['server_keepalive_sec']]
+    cmps = []
+    for bi, j, s in b.assigns():
+        rv = s['rv']
+        if rv['k'] != 'bin' or rv['op'] not in ('Gt', 'Lt', 'Ge', 'Le'):
+            continue
+        pa, pb = apath(b, rv['a']) or ('',), apath(b, rv['b']) or ('',)
+        sides = {pa[-1]: rv['a'], pb[-1]: rv['b']}
+        if 'keep_alive' in sides and 'keepalive' in sides:
+            op = rv['op'] if pa[-1] == 'keep_alive' else {'Gt': 'Lt', 'Lt': 'Gt', 'Ge': 'Le', 'Le': 'Ge'}[rv['op']]
+            r = bool_branch(b, bi, s['lhs']['l'])
+            if r:
+                cmps.append((bi, op, r))
+    ok = False
+    why = 'found %d store(s) of server_keepalive_sec and %d direct comparison(s) of the client keep-alive with ack.keepalive' % (len(stores), len(cmps))
+    for sbi, s in stores:
+        for cbi, op, (sw, tt, ft) in cmps:
+            edge = tt if op in ('Gt', 'Ge') else ft
+            if edge_dominates(b, sw, edge, sbi):
+                ok = True
+    R.ob('C20.guards', 'v5-server|Server-Keep-Alive-announced-when-client-keep-alive>enforced', ok,
+         'the CONNACK announces the server\'s keep-alive under a condition other than `client keep-alive > ack.keepalive` (%s): a client whose own, longer period stays in force is timed out by the un-announced shorter one' % why,
+         b.loc(stores[0][0]) if stores else b.loc(0))
+    # the timer is armed with that same value
+    oks = [(bi, s) for bi, j, s in agg_sites(b, r'^ntex_util::time::(types::)?Seconds$')]
+    armed = [bi for bi, s in oks if s['rv']['fields'] and (apath(b, s['rv']['fields'][0]) or ('',))[-1] == 'keepalive']
+    R.ob('C20.guards', 'v5-server|idle-timer-armed-with-ack.keepalive', bool(armed), 'the keep-alive handed to the dispatcher is not ack.keepalive (Seconds(..) built from: %s)' % [apath_str(apath(b, s['rv']['fields'][0])) for bi, s in oks][:3])
+
+
 def client_ping(F, R):
     for ver in ('v3', 'v5'):
         starts = [b for b in F.find(r'^%s::client::connection::(Client|ClientRouter::<Err, PErr>)::start\w*::\{closure#0\}$' % ver)]
@@ -293,6 +328,12 @@ def client_ping(F, R):
             okq = not (heads & back) and not (set(k.returns()) & back)
         R.ob('C20.client-ping', '%s|every period with an open sink sends PINGREQ (ping not gated by anything else)' % ver, okq,
              'an iteration of the keep-alive loop can skip ping() although the connection is open (e.g. gated on send credit / back-pressure): an idle client is then timed out by the server')
+        # ping() itself writes the PINGREQ whenever it is called: no state of the sink (recent traffic, credit) makes it skip
+        pg = F.one(r'^%s::sink::MqttSink::ping$' % ver)
+        enc = [bi for bi, t in pg.calls_to(r'^%s::shared::MqttShared::encode_packet$' % ver)
+               if any(l[0] == 'agg' and l[1].endswith('Packet::PingRequest') for a in t['args'][1:] for l in Origin(pg).of_operand(a))]
+        R.ob('C20.client-ping', '%s|MqttSink::ping|every-call-writes-PINGREQ' % ver, bool(enc) and all(pg.must_pass(enc, rb) for rb in pg.returns()),
+             'ping() can return without handing a PINGREQ to the encoder (skipped on some state of the sink): a period without the ping makes the client look idle to the server for up to two keep-alive periods')
         R.ob('C20.client-ping', '%s|keepalive task stops only when the sink is closed' % ver, ok,
              'the keep-alive loop can end although the connection is still open (e.g. when ping() is refused with ExpectPayload during a streamed publish): no PINGREQ is ever sent again')
 
@@ -409,4 +450,5 @@ def run(F, R):
     flag_consistency(F, R)
     reset_on_frame(F, R)
     guards(F, R)
+    server_keepalive_announced(F, R)
     client_ping(F, R)
